@@ -7,7 +7,7 @@ import vlib, gram, front
 TRICKY_NAMES = ['left_paren', 'right_paren', 'token_kind', 'type1', 'start_sym', 'prec2', 'union_a', 'nonassoc_x', 'precedence_lvl', 'tokens', 'lefty', 'typeid', 'startx', 'accept', 'end_', 'error', 'NUM', 'ID_2', '_u', 'x9']
 ACTIONS = ['{ }', '{ x := 1; _ = x }', '{ if true { } else { } }', '{ /* c */ }', '{ // line\n }', '{ s := "str"; _ = s }', '{ a := []int{1, 2}; _ = a }', "{ r := 'x'; _ = r }", '{\n\t_ = 0\n}',
            # quotes that do not pair up inside an action (an apostrophe in a comment, a lone backquote): only braces delimit an action
-           "{ // don't stop here\n }", "{ /* it's fine */ _ = 1 }", '{ /* say "hi */ }', '{ // a ` backquote\n }', "{ _ = 2 // can't\n }"]
+           "{ // don't stop here\n }", '{ x := 7 % 3; _ = x }', '{ s := "100%d%%"; _ = s }', '{ /* %s %v %! %% */ }', "{ /* it's fine */ _ = 1 }", '{ /* say "hi */ }', '{ // a ` backquote\n }', "{ _ = 2 // can't\n }"]
 
 
 def rename_tricky(g, rnd):
@@ -108,11 +108,65 @@ def run_C10(ctx):
                               dict(case, other_text=first[si][2]), interface='I1')
             if ctx.evaluations % 173 == 5:
                 ctx.sample(dict(spec=name, layout=st, bytes=len(text), rules=len(got['rules']), tokens=len(got['tokens']), head=text[:160]))
+        ctx.extra['emitted_sections'] = c10_outputs(ctx, specs, cases, paths, res, work, nlay)
         ctx.extra['specs'] = len(specs)
         ctx.extra['layouts_per_spec'] = nlay
         ctx.extra['lexer_model'] = tokdiffs
     finally:
         shutil.rmtree(work, ignore_errors=True)
+
+
+def c10_outputs(ctx, specs, cases, paths, res, work, nlay):
+    """What `generate` writes for two layouts of every specification: the prologue, the %union body and the epilogue the
+    front end read appear in the output byte for byte and in that order, and the code of every action is what the model
+    of the substitution (EmitAction.subst_action) gives for the action text that was read."""
+    import genprops
+    bindir = vlib.build_impl()
+    yaccgo = os.path.join(bindir, 'yaccgo')
+    pick = []
+    for ci, ((si, li, st, text), p, (d, m, vd)) in enumerate(zip(cases, paths, res)):
+        if d.get('ok') and (li == 0 or li == 1 + si % (nlay - 1)):
+            pick.append((ci, 1 if (si + li) % 3 == 0 else 0))
+
+    def gen(job):
+        ci, lang = job
+        o = os.path.join(work, 'o%d%s' % (ci, '.ts' if lang else '.go'))
+        try:
+            r = subprocess.run([yaccgo, 'generate', 'typescript' if lang else 'go', paths[ci], o], capture_output=True, text=True, timeout=60)
+            return (r.returncode, (r.stderr or r.stdout)[-300:], o)
+        except subprocess.TimeoutExpired:
+            return (None, 'timeout', o)
+    with cf.ThreadPoolExecutor(16) as ex:
+        outs = list(ex.map(gen, pick))
+    jobs, textof = [], {}
+    nsec = 0
+    for (ci, lang), (rc, msg, o) in zip(pick, outs):
+        si, li, st, text = cases[ci]
+        d = res[ci][0]
+        name = specs[si][0]
+        case = dict(spec=name, layout=st, grammar_text=text, grammar_sha=vlib.sha(text), target='typescript' if lang else 'go')
+        ctx.evaluations += 1
+        if rc != 0 or not os.path.exists(o):
+            ctx.violation('counterexample', 'spec %s, layout %s: the front end reads the file but `generate %s` fails: %s' % (name, st, case['target'], msg),
+                          dict(case, observed=msg), interface='I7')
+            continue
+        out = open(o).read()
+        pos = -1
+        for sec in ('code', 'union', 'epilogue'):
+            body = d.get(sec) or ''
+            if not body.strip():
+                continue
+            nsec += 1
+            at = out.rfind(body) if sec == 'epilogue' else out.find(body, pos + 1)
+            if at < 0 or at < pos:
+                ctx.violation('counterexample', 'spec %s, layout %s (%s): the %s of the file is not carried into the generated file unchanged' % (name, st, case['target'], {'code': 'prologue', 'union': '%union body', 'epilogue': 'epilogue'}[sec]),
+                              dict(case, section=sec, expected=body[:400]), interface='I7')
+                break
+            pos = at
+        key = 'c%d' % ci
+        jobs.append((key, lang, paths[ci], o)); textof[key] = text
+    acts = genprops.action_code_jobs(ctx, jobs, lambda k, lang: textof.get(k, '')) if jobs else {}
+    return dict(generated=len(pick), sections_found=nsec, actions=acts)
 
 
 def lex_correspondence(ctx, texts, paths):
